@@ -571,8 +571,8 @@ struct C14 {
 }
 
 const MAX_FAULT: usize = 12; // every shape makes <= 11 probe calls on inputs of length <= 4
-const SEEDS_QUICK: u64 = 500;
-const SEEDS_THOROUGH: u64 = 40_000;
+const SEEDS_QUICK: u64 = 4_000;
+const SEEDS_THOROUGH: u64 = 400_000;
 
 fn make_input(seed: u64, list_len: usize) -> Input {
     let mut g = Xo::from_seed(seed);
